@@ -81,6 +81,14 @@ def step (s : St) : Stmt → St
 
 def run (p : List Stmt) (s : St) : St := p.foldl step s
 
+/-- the variable a statement (re)binds to its result: `d = x ± y`, `x ±= y`, `d = FreeCapacity(total=t, allocated=a).free`;
+plain aliasing `d = x` has no result object -/
+def resultVar : Stmt → Option Nat
+  | .bin _ d _ _ => some d
+  | .aug _ x _ => some x
+  | .free d _ _ => some d
+  | .alias _ _ => none
+
 /-- observable content: the values in field order -/
 def toList (x : Cap) : List Int := fields.map x
 
